@@ -71,6 +71,8 @@ def run_verus_unit(pid, unit, tier, evidence, problems):
     rlimit = 60 if tier == 'quick' else 120
     r = vunit.run_verus(lines, workdir, unit, rlimit=rlimit, threads=int(os.environ.get('VERIF_THREADS', '12')))
     rec.update({k: r.get(k) for k in ('status', 'reason', 'verified', 'errors', 'wall_s', 'smt_ms', 'cmd')})
+    if r.get('isolated_ok'):
+        rec['isolated_ok'] = r['isolated_ok']     # reported in the full run, verified when re-run alone in a fresh solver process
     rec['failures'] = [{'function': f['function'], 'message': f['message'],
                         'where': [w for w in f['where']][:3]} for f in r.get('failures', [])]
     if r['status'] == 'verified':
